@@ -30,6 +30,7 @@ import (
 func FamilyAtoms(prop string, quick bool, pick func(n int) int) (out []OutsideAtom) {
 	eff, str, nam, ty, ifi, bod := effectOnceAtoms(), append(stringLiteralAtoms(), literalSpellingAtoms()...), namedLikeAtoms(), typeNestingAtoms(), ifInitAtoms(), bodyShapeAtoms()
 	rej := rejectedConstructFamilies()
+	rej = append(rej, Round9Families()...)
 	if !quick {
 		all := append(append(append(append(append([]OutsideAtom{}, eff...), str...), nam...), ty...), bod...)
 		if prop == "C02" {
